@@ -56,6 +56,14 @@ def main():
             pa_ok = pa_ok and ok
             n_closed += n
             axioms += ax
+    chk = None
+    if tier == "thorough" and not failed_in_cone and os.environ.get("VERIF_NO_COQCHK") != "1":
+        t1 = time.time()
+        chk_ok, chk_summ, chk_raw = vlib.coqchk(mod.PROP_FILES)
+        chk = {"ok": chk_ok, "summary": chk_summ, "wall_s": round(time.time() - t1, 1),
+               "cmd": "coqchk -silent -o -R . Mkdb " + " ".join(mod.PROP_FILES)}
+        if not chk_ok:
+            chk["tail"] = chk_raw
     allowed = getattr(mod, "ALLOWED_AXIOMS", [])
     unexpected_axioms = [a for a in axioms if not any(x in a for x in allowed)]
     rep.coverage.update({
@@ -70,6 +78,8 @@ def main():
         "coq_build_wall_s": round(time.time() - t0, 1),
         "theorem_names": [n for n in names if n.startswith(pid)],
     })
+    if chk is not None:
+        rep.coverage["coqchk"] = chk
     rep.assumptions = getattr(mod, "ASSUMPTIONS", [])
     proof_broken = []
     if failed_in_cone:
@@ -78,6 +88,8 @@ def main():
         proof_broken.append("hygiene: " + "; ".join(bad))
     if not failed_in_cone and (not pa_ok or n_closed + len(axioms) < n_expected):
         proof_broken.append("Print Assumptions output incomplete (%d of %d)" % (n_closed + len(axioms), n_expected))
+    if chk is not None and not chk["ok"]:
+        proof_broken.append("coqchk rejects the compiled development or reports axioms: %s" % chk["summary"])
     if unexpected_axioms:
         proof_broken.append("unexpected axioms: %s" % unexpected_axioms)
     ctx.proof_broken = proof_broken
